@@ -162,6 +162,45 @@ def run(rep, tier="quick", replay=None, evidence_dir=None):
     rep.analysed["field / symbol names compared"] = n_fields
     rep.floor("C17.R1", "names compared", n_fields, 250 if size == "quick" else 800)
 
+    # ---------------------------------------------------------------- R4: defaults of skipped fields
+    # A field serde skips is written from its schema default by SchemaAwareRecordFieldDefault. Every JSON default the parser
+    # accepts for a schema shape must be writable: here for JSON *integer* numbers (`"default": 0`), which the parser accepts for
+    # every numeric and date/time shape (Value::try_from gives Int/Long, which resolve to those shapes).
+    rep.rule("C17.R4", "the writer of skipped fields' defaults accepts an integer JSON default for every numeric / date-time schema the parser accepts it for")
+    from mir import Program
+    from wire import Wire
+    from vpes import key_shapes
+    import restab
+    prog = Program(factsmod.extract())
+    fd = prog.bodies.get("<serde::ser_schema::record::field_default::SchemaAwareRecordFieldDefault<'v, 's> as serde::Serialize>::serialize")
+    if fd is None:
+        rep.anchor_error("C17.R4", "SchemaAwareRecordFieldDefault::serialize")
+    else:
+        w = Wire(prog)
+        vp = w.vpes(fd)
+        vp.extern_bool = {"serde_json::Number::is_i64": True, "serde_json::Number::is_u64": True, "serde_json::Number::is_f64": False, "serde_json::Number::as_f64": True,
+                          "serde_json::Number::as_i64": True, "serde_json::Number::as_u64": True}
+        vkey = [k for k in vp.keys() if k[0] == 1 and k[1] and k[1][0] == ".value"]
+        skey = [k for k in vp.keys() if k[0] == 1 and k[1] and k[1][0] == ".schema"]
+        if not rep.ob("C17.R4", "SchemaAwareRecordFieldDefault::serialize discriminates the JSON value and the schema", bool(vkey) and bool(skey), "keys %s" % vp.keys(), fd.loc()):
+            pass
+        else:
+            RT = restab.table(prog)
+            accepted = sorted(set(R.split("(")[0] for (V, R), c in RT["cells"].items() if V in ("Int", "Long") and c["cls"] == "always"))
+            adt = prog.adt("schema::Schema")
+            n4 = 0
+            for S in accepted:
+                if S not in [v["name"] for v in adt["variants"]]:
+                    continue
+                n4 += 1
+                sig = {vkey[0]: "Number", skey[0]: S}
+                reg = vp.region(sig)
+                calls_ = [callee_names(fd.blocks[bi]["term"]["func"])[0] for bi in reg if fd.blocks[bi]["term"]["t"] == "call" and callee_names(fd.blocks[bi]["term"]["func"])]
+                writes = [c for c in calls_ if ".serialize_" in c.replace("::", ".") and "Serializer" in c]
+                rep.ob("C17.R4", "an integer JSON default is written for a %s field" % S, bool(writes),
+                       "the parser accepts `\"default\": 0` for a %s field (an integer resolves to %s) but the default writer has no success path for an integer number there: a value whose field serde skips fails to serialize" % (S.lower(), S), fd.loc())
+            rep.floor("C17.R4", "numeric / date-time shapes that accept an integer default", n4, 10)
+
     rep.not_decided = ["validity of the derived schema beyond names, order and field types (defaults, docs, namespaces of nested types)", "JSON round trip of the derived schema, value round trips, container files: need execution",
                        "run-time handling of skipped fields' defaults (serde::ser_schema::record::field_default)"]
     return common.finish(rep, level="other",
